@@ -32,7 +32,18 @@ FORMATS = ["json", "yaml", "bson", "xml", "pickle"]
 SLACK = 0                                  # the stream holds exactly the bytes the specification draws
 
 
+def _facts_unicode():
+    if not issubclass(UnicodeEncodeError, ValueError):
+        raise Broken("UnicodeEncodeError is not a ValueError in this interpreter")
+    try:
+        "\ud800".encode()
+    except UnicodeEncodeError:
+        return
+    raise Broken("str.encode() accepts a lone surrogate in this interpreter")
+
+
 def _facts():
+    _facts_unicode()
     """source facts: the ALGORITHMS table offers exactly the six names the model knows, and hashlib's digest
     sizes are the model's table"""
     from cincoconfig.fields import ChallengeField
@@ -79,11 +90,11 @@ def rows_for(c):
     pos = 0
     cur = None            # None or (salt, digest, alg)
 
-    def H(a, data):
+    def H(a, data, split=None):
         d = hh(a, data)
         if (a, data) not in seen:
             seen.add((a, data))
-            rows.append((a, data, d))
+            rows.append((a, data, d, split))      # split = length of the salt part (literal printing only)
         return d
 
     def create(pt, salt=None):
@@ -98,7 +109,7 @@ def rows_for(c):
         b = enc(pt)
         if b is None:
             return None
-        return (s, H(alg, s + b), alg)
+        return (s, H(alg, s + b, len(s)), alg)
 
     def validate(x):
         if x is None:
@@ -156,7 +167,7 @@ def rows_for(c):
         elif k == "challenge":
             b = enc(op[1]) if is_secret(op[1]) else None
             if cur is not None and b is not None:
-                H(cur[2], cur[0] + b)
+                H(cur[2], cur[0] + b, len(cur[0]))
         elif k == "python":
             to_python(op[1])
         elif k == "load":
@@ -246,6 +257,28 @@ def variants(p):
         if q != p and q not in out:
             out.append(q)
     return out
+
+
+HI, LO = "\ud800", "\udfff"
+
+
+def unencodable(p):
+    """texts that differ from the str p only by characters str.encode() refuses (lone surrogates): a lenient error handler
+    ("ignore") would hash them to the same bytes as p; all of them are different secrets and must FAIL"""
+    m = len(p) // 2
+    out = [p + HI, p + LO, HI + p, LO + p, p[:m] + HI + p[m:], p[:m] + LO + p[m:], HI + p + LO, p + LO + HI, p + "\udc80",
+           p + "\udbff", "\udc00" + p]
+    return out
+
+
+def handler_pairs(p):
+    """(stored secret, challenge text) pairs that a lenient error handler of the challenge would confuse:
+    replace -> '?', surrogateescape -> the raw byte, surrogatepass -> the 3-byte form, ascii/latin-1 + ignore/replace"""
+    b = p.encode()
+    return [(p + "?", p + HI), (p + "?", p + LO), (p + "\ufffd", p + HI), (b + b"\x80", p + "\udc80"), (b + b"\xff", p + "\udcff"),
+            (b + b"\xed\xa0\x80", p + HI), (b + b"\xed\xbf\xbf", p + LO), (p, p + "\u00e9"), (p + "?", p + "\u00e9"),
+            (p, p + "\u20ac"), (p + "?", p + "\u20ac"), (b + b"\xe9", p + "\u00e9"),
+            (b, p + "\x00"), (p + "\\ud800", p + HI), (p + "&#55296;", p + HI), (p + "\\N{EURO SIGN}", p + "\u20ac")]
 
 
 _CARRIES = {}
@@ -451,6 +484,23 @@ def matrix(tier="quick"):
             how = route((["tree"] + FORMATS)[(ei + a2) % 6], text)
             ops = [("new",), ("load", text, how), ("challenge", text)] + [("challenge", q) for q in vs[:3]]
             cases.append(finish({"alg": a2, "req": False, "default": None, "ops": ops, "secrets": [text]}))
+    # characters the encoder refuses: p plus lone surrogates (start, middle, end; high and low) is a different secret and
+    # must fail as a ValueError on every route the value was stored by; and the pairs a lenient error handler would confuse
+    for a in range(6):
+        rng = random.Random(4242 + a)
+        ps = ["pw", plaintext(rng, "ascii"), plaintext(rng, "unicode"), EDGE[(3 * a) % len(EDGE)], ""]
+        ops = [("new",)] + [("challenge", q) for q in unencodable("dflt-" + ALGS[a])[:4]]
+        for pi, p in enumerate(ps):
+            how = route((["tree"] + FORMATS)[(a + pi) % 6], p)
+            ops += [("assign", p) if pi % 2 == 0 else ("load", p, how), ("challenge", p)]
+            ops += [("challenge", q) for q in unencodable(p)]
+            ops += [("assign", p.encode()), ("challenge", p)] + [("challenge", q) for q in unencodable(p)[pi::3]]
+        ops += [("saveload", FORMATS[a % 5])] + [("challenge", q) for q in unencodable(ps[-1])[:3]]
+        cases.append(finish({"alg": a, "req": False, "default": "dflt-" + ALGS[a], "ops": ops, "secrets": ps}))
+        ops = [("new",)]
+        for stored_p, q in handler_pairs(plaintext(rng, "ascii")):
+            ops += [("assign", stored_p), ("challenge", q)]
+        cases.append(finish({"alg": a, "req": False, "default": None, "ops": ops, "secrets": []}))
     # very long secrets that differ only far from the start (beyond any block / buffer size one might hash up to)
     for a in range(6):
         for n, asbytes in ((4096, bool(a % 2)), (65, not a % 2)):
@@ -464,7 +514,37 @@ def matrix(tier="quick"):
             if not asbytes and n < 100:
                 ops += [("load", qq, "tree"), ("challenge", pp), ("challenge", qq)]
             cases.append(finish({"alg": a, "req": False, "default": None, "ops": ops, "secrets": [pp, qq]}))
-    return cases
+    return [pc for c in cases for pc in split_case(c)]
+
+
+def split_case(c, limit=14):
+    """cut a long history into several cases.  Every piece starts with a fresh configuration and is cut only in front of
+    an operation that sets the stored value anew (assign / load / new), so each piece is a history in its own right;
+    the pieces together hold the same operations.  (Many small cases spread over the case shards, which are evaluated in
+    parallel; one shard of long histories is what made the quick tier slow.)"""
+    ops = c["ops"]
+    if len(ops) <= limit + 4:
+        return [c]
+    segs, cur = [], []
+    for op in ops:
+        if op[0] in ("assign", "load", "new") and cur and not (len(cur) == 1 and cur[0][0] == "new"):
+            segs.append(cur)
+            cur = []
+        cur.append(op)
+    segs.append(cur)
+    pieces, cur = [], []
+    for sg in segs:
+        if cur and len(cur) + len(sg) > limit:
+            pieces.append(cur)
+            cur = []
+        cur = cur + sg
+    pieces.append(cur)
+    out = []
+    for pc in pieces:
+        if pc[0][0] != "new":
+            pc = [("new",)] + pc
+        out.append(finish({"alg": c["alg"], "req": c["req"], "default": c["default"], "ops": pc, "secrets": list(c["secrets"])}))
+    return out
 
 
 def str_of(dv):
@@ -565,9 +645,9 @@ def random_case(rng):
             kk = rng.random()
             if kk < 0.4:
                 ops.append(("challenge", p))
-            elif kk < 0.85:
+            elif kk < 0.8:
                 ops.append(("challenge", mutate(rng, p)))
-            elif kk < 0.95:     # the same bytes in the other type verify as well
+            elif kk < 0.88:     # the same bytes in the other type verify as well
                 if isinstance(p, str):
                     ops.append(("challenge", p.encode()))
                 else:
@@ -576,7 +656,7 @@ def random_case(rng):
                     except UnicodeDecodeError:
                         ops.append(("challenge", p))
             else:
-                ops.append(("challenge", "\udc80" + (p if isinstance(p, str) else "")))
+                ops.append(("challenge", rng.choice(unencodable(p if isinstance(p, str) else p.decode("latin-1")))))
         elif k < 0.57:
             ops.append(("saveload", rng.choice(FORMATS)))
             ops.append(("challenge", last[0] if last[0] is not None else "nothing-stored"))
@@ -669,9 +749,23 @@ def gop(op):
     raise Broken("gop %r" % (op,))
 
 
+_TEXT = set(range(32, 127)) - {ord('"')}
+
+
+def g_input(data, split):
+    """the hashed bytes salt ++ secret, printed as two literals: the same salt / the same printable secret occurs in
+    several rows and operations of a case and is then shared by the case file (literal size is what costs time)"""
+    if split is None or split >= len(data) or len(data) - split < 8:
+        return g_bytes(data)
+    salt, body = data[:split], data[split:]
+    if all(b in _TEXT for b in body):
+        return '(%s ++ (sa "%s"))%%list' % (g_bytes(salt), body.decode("ascii"))
+    return "(%s ++ %s)%%list" % (g_bytes(salt), g_bytes(body))
+
+
 def gcase(c):
     rows, _ = rows_for(c)
-    t = g_list(rows, lambda r: "(%s,%s,%s)" % (g_n(r[0]), g_bytes(r[1]), g_bytes(r[2])))
+    t = g_list(rows, lambda r: "(%s,%s,%s)" % (g_n(r[0]), g_input(r[1], r[3]), g_bytes(r[2])))
     return "(%s, %s, %s, %s, %s, %s)" % (g_n(c["alg"]), g_bool(c["req"]), gal(c["default"]), t, g_bytes(c["stream"]),
                                         g_list([gop(o) for o in c["ops"]]))
 
@@ -925,6 +1019,12 @@ def oracle(c, obs):
                 bad.append("op %d: challenge with the right secret failed: %r" % (i, o))
             if not expect and o != ("err", "value"):
                 bad.append("op %d: challenge with a wrong secret did not raise ValueError: %r" % (i, o))
+        if k == "challenge" and isinstance(stored, Digest) and isinstance(op[1], str) and enc(op[1]) is None:
+            # no stored secret can contain a character str.encode() refuses (hashing it raises), so this q differs from
+            # the secret: the challenge must fail, and fail as a ValueError (UnicodeEncodeError is one; measured below)
+            if o not in (("err", "unicode"), ("err", "value")):
+                bad.append("op %d: challenge with %r, which differs from the stored secret by characters that cannot be "
+                           "encoded, did not fail with a ValueError: %r" % (i, op[1], o))
         if k == "create" and is_secret(op[1]) and enc(op[1]) is not None:
             given = op[2]
             if given and len(given) < ds:
